@@ -23,6 +23,10 @@ def random_ramp(rng, n, lo, hi, kind):
     if kind == "repeated":
         v = np.linspace(0, hi, (n + 1) // 2 + 1)[1:]
         return np.repeat(v, 2)[:n]
+    if kind == "return-to-zero":
+        up = np.linspace(0, hi, (n + 1) // 2 + 1)[1:]
+        down = np.linspace(hi, 0.0, n - len(up) + 1)[1:] if n > len(up) else np.array([])
+        return np.concatenate([up, down])[:n]
     return rng.uniform(lo, hi, n)
 
 
@@ -46,9 +50,11 @@ def case_history(rep):
             total = 0
             for s in range(nsteps):
                 n = int(rng.integers(1, 6))
-                rk = ["monotone", "cyclic", "repeated", "random"][int(rng.integers(0, 4))]
+                rk = ["monotone", "cyclic", "repeated", "random", "return-to-zero"][int(rng.integers(0, 5))]
                 hi = float(rng.uniform(0.05, 0.22)) * L0
-                move = last + random_ramp(rng, n, -0.5 * hi, hi, rk) - (0 if rk != "monotone" else 0)
+                move = last + random_ramp(rng, n, -0.5 * hi, hi, rk)
+                if rk == "return-to-zero":
+                    move = random_ramp(rng, n, 0.0, hi, rk)  # ends with exactly zero prescribed values
                 if rk == "monotone":
                     move = np.linspace(last, last + hi, n + 1)[1:]
                 ramp = {bounds["move"]: move}
